@@ -455,7 +455,7 @@ def _ext_call(ev, dotted, args, kwargs, fr, node):
         ev.exits.append((args[0] if args else T.const(0), fr.fn.qual if fr.fn else None, node.lineno if node is not None else 0))
         return T.raise_('SystemExit#%d' % (len(ev.exits) - 1))
     if dotted.startswith('sys.stdout.') or dotted.startswith('sys.stderr.'):
-        ev.effects.append(('stream-write', fr.fn.qual if fr.fn else None, node.lineno if node else 0, dotted))
+        ev.effects.append(('stream-write', fr.fn.qual if fr.fn else None, node.lineno if node else 0, dotted, tuple(args)))
         return T.NONE
     if dotted.startswith('argparse.ArgumentError'):
         return T.raw_op('EXC', T.const('ArgumentError'))
